@@ -216,6 +216,45 @@ pub fn corr(ctx: &mut Ctx) {
         let v: Vec<usize> = (0..40).map(|_| u.sample(&mut r)).collect();
         ctx.line(&format!("dens chacha {} {} 40", seed, m), &join(&v));
     }
+    // items whose HASH is an extreme value (through NoHashHasher the hash is the item): u64::MAX is also the initial content of an
+    // empty bin, 0 and 1 are other natural sentinels. Model (which takes the hash) + order / repetition oracle.
+    {
+        use probminhash::nohasher::NoHashHasher;
+        type NO = OptDensMinHash<f64, u64, NoHashHasher>;
+        type NR = RevOptDensMinHash<f32, u64, NoHashHasher>;
+        let nbh = || BuildHasherDefault::<NoHashHasher>::default();
+        let specials = [u64::MAX, 0u64, 1, u64::MAX - 1, 1u64 << 63];
+        for (ci, m) in [1usize, 2, 2, 3, 8, 64].iter().enumerate() {
+            for spv in specials {
+                // the crate's NoHashHasher reads the 8 bytes of a u64 item in the other byte order: choose the ITEM whose hash is the special value
+                let sp = spv.swap_bytes();
+                if hash_with::<NoHashHasher, u64>(&sp) != spv { ctx.count("NoHashHasher is not the byte-swapped identity: special hashes not reached"); }
+                let mut rng = ctx.rng.fork();
+                let mut others: Vec<u64> = (0..(ci * 8 + 1)).map(|_| rng.next() >> 1).collect();
+                others.retain(|x| *x != sp);
+                let mut first = vec![sp]; first.extend_from_slice(&others);
+                let mut last = others.clone(); last.push(sp);
+                let mut dup = first.clone(); dup.push(sp);
+                ctx.begin_case(&format!("dens extreme hash {:x} through NoHashHasher m={} n={}", spv, m, first.len()));
+                ctx.mark_nontrivial();
+                ctx.count("extreme hash values through NoHashHasher");
+                let ro = |v: &[u64]| catch(std::panic::AssertUnwindSafe(|| { let mut d = NO::new(*m, nbh()); let ok = d.sketch_slice(v).is_ok(); (ok, fmt_state(&d.verif_state(), fhx)) }));
+                let rr = |v: &[u64]| catch(std::panic::AssertUnwindSafe(|| { let mut d = NR::new(*m, nbh()); let ok = d.sketch_slice(v).is_ok(); (ok, fmt_state(&d.verif_state(), f32hx)) }));
+                let a = ro(&first);
+                ctx.op(&format!("dens new64 x {}", m));
+                ctx.line(&format!("dens slice64 x opt {}", first.iter().map(|x| hx(hash_with::<NoHashHasher, u64>(x))).collect::<Vec<_>>().join(" ")), match &a { Ok((true, _)) => "ok", Ok((false, _)) => "ERR", Err(_) => "PANIC" });
+                ctx.line("dens dump64 x", &a.as_ref().map(|x| x.1.clone()).unwrap_or("PANIC".into()));
+                let b = rr(&first);
+                ctx.op(&format!("dens new32 y {}", m));
+                ctx.line(&format!("dens slice32 y rev {}", first.iter().map(|x| hx(hash_with::<NoHashHasher, u64>(x))).collect::<Vec<_>>().join(" ")), match &b { Ok((true, _)) => "ok", Ok((false, _)) => "ERR", Err(_) => "PANIC" });
+                ctx.line("dens dump32 y", &b.as_ref().map(|x| x.1.clone()).unwrap_or("PANIC".into()));
+                if a != ro(&last) || a != ro(&dup) || b != rr(&last) || b != rr(&dup) || !matches!(a, Ok((true, _))) || !matches!(b, Ok((true, _))) {
+                    ctx.oracle_failure(serde_json::json!({"kind":"impl_violates_property","what":"densified sketch over pre-hashed items: an item whose hash is an extreme value is treated specially (order / repetition changes the sketch, or finishing a non-empty stream fails)",
+                        "hash":hx(sp),"m":m,"n":first.len(),"opt_ok": a == ro(&last) && a == ro(&dup), "rev_ok": b == rr(&last) && b == rr(&dup)}));
+                }
+            }
+        }
+    }
     // EVERY small sketch size (number-theoretic accidents of a probing scheme - a stride sharing a factor with m - live at
     // particular sizes) with 1..4 items, and a few larger composite / prime sizes: finishing must succeed, keep populated bins, copy
     // only populated bins, be reproducible and not depend on the order of the items. Implementation only.
@@ -433,8 +472,42 @@ pub fn corr(ctx: &mut Ctx) {
 ///   (C) sketch(A)[k] == sketch(B)[k]  ⇔  sketch(A ∪ B)[k] ∈ hashes(A) ∩ hashes(B)   — the event whose
 ///       probability is J under exchangeable hashing (Props/C08 collision_iff / collision_count_is_jaccard);
 ///   views: equal u64 ⇔ equal float bits (no r-tie) and equal u64 ⇒ equal u32.
+/// LARGE sketch sizes (a threshold on m or on the number of empty bins above which another densification path is taken):
+/// S subset of U with fill ratios on both sides of 1/2 at m = 2^17 (and 2^16 + 1): wherever U's finished sketch shows an item of S,
+/// S's own sketch must show the same item (restriction), S's populated bins are untouched, both finish. Implementation only.
+pub fn large_restriction(ctx: &mut Ctx) {
+    use std::collections::HashSet;
+    for (ci, m) in [1usize << 17, (1 << 16) + 1].iter().enumerate() {
+        for kind in if ctx.quick() { vec![ci % 2, 2 + ci % 2] } else { vec![0, 1, 2, 3] } {
+            let mut rng = ctx.rng.fork();
+            let nu = m * 4 / 5;              // empties in U: m e^{-0.8} ~ 0.45 m ; in S (half of U): m e^{-0.4} ~ 0.67 m
+            let u_items = gen_stream(&mut rng, nu);
+            let s_items = &u_items[..nu / 2];
+            ctx.begin_case(&format!("dens large restriction kind={} m={} |U|={} |S|={}", kind, m, nu, s_items.len()));
+            ctx.mark_nontrivial();
+            ctx.count("large m restriction (fill ratios on both sides of 1/2)");
+            let mut du = D::new(kind, *m);
+            let mut ds = D::new(kind, *m);
+            let oku = du.sketch_slice(&u_items);
+            let oks = ds.sketch_slice(s_items);
+            let hs: HashSet<u64> = s_items.iter().map(|x| hash_with::<FnvHasher, u64>(x)).collect();
+            let (vu, vs) = (du.parts().0, ds.parts().0);
+            let mut bad = 0usize;
+            let mut first = None;
+            for k in 0..*m {
+                if hs.contains(&vu[k]) && vs[k] != vu[k] { bad += 1; if first.is_none() { first = Some(k); } }
+            }
+            if !oku || !oks || bad > 0 {
+                ctx.oracle_failure(serde_json::json!({"kind":"impl_violates_property","what":"large densified sketch: where the sketch of U shows an item of S, the sketch of S shows another item (selection is not a restriction-consistent function of the set)",
+                    "kind_index":kind,"m":m,"positions_violating":bad,"first_position":first,"finished_U":oku,"finished_S":oks}));
+            }
+        }
+    }
+}
+
 pub fn selection_oracles(ctx: &mut Ctx) {
     use std::collections::HashSet;
+    large_restriction(ctx);
     let ms: Vec<usize> = if ctx.quick() { vec![1, 2, 3, 8, 64, 500] } else { vec![1, 2, 3, 8, 64, 500, 4096, 20000] };
     let ncases = ctx.n(160, 3000);
     // thorough tier: four more cases (one per sketcher type) at m = 2^18, where an f32 value has only 32 grid points per bin
